@@ -24,7 +24,7 @@ CLASSES = ('nonrec', 'linear', 'nonlinear', 'mixed')
 
 
 def plan(tier, seed):
-    return dict(n=144 if tier == 'quick' else 4000, budget_s=85 if tier == 'quick' else 840, case_timeout=200)
+    return dict(n=144 if tier == 'quick' else 4000, budget_s=150 if tier == 'quick' else 840, case_timeout=300)
 
 
 def gen(tier, seed, index):
